@@ -414,7 +414,7 @@ def collect_common_variants(
         het_variants = [
             v
             for v, gt in zip(variant_table.variants, variant_table.genotypes_of(sample))
-            if not gt.is_homozygous()
+            if not (gt.is_none() or gt.is_homozygous())
         ]
         if common_variants is None:
             common_variants = set(het_variants)
@@ -872,7 +872,7 @@ def run_compare(
                 het_variants = [
                     v
                     for v, gt in zip(variant_table.variants, variant_table.genotypes_of(sample))
-                    if not gt.is_homozygous()
+                    if not (gt.is_none() or gt.is_homozygous())
                 ]
                 if het_variants0 is None:
                     het_variants0 = len(het_variants)
